@@ -216,8 +216,13 @@ RECURSIVE BagAddAll(_, _)
 BagAddAll(b, ms) == IF ms = {} THEN b ELSE LET m == CHOOSE x \in ms : TRUE IN BagAddAll(BagAdd(b, m), ms \ {m})
 BagRemove(b, m) == IF b[m] = 1 THEN [x \in (DOMAIN b) \ {m} |-> b[x]] ELSE [b EXCEPT ![m] = @ - 1]
 
+\* underlays a node has heard of without ever having been linked to their owner (peer gossip): pairs <<n, t>>;
+\* a configuration overrides the definition (Heard <- ...)
+Heard == {}
+HeardBy(hd, n) == {t \in Node : <<n, t>> \in hd}
+
 Init == /\ links \in Graphs /\ everlinks = links
-        /\ st = [n \in Node |-> InitNode(C, NbrsIn(links, n))]
+        /\ st = [n \in Node |-> InitNode(C, NbrsIn(links, n) \cup HeardBy(Heard, n))]
         /\ parked = [n \in Node |-> {}]
         /\ net = <<>> /\ nsent = 0 /\ nfinds = 0 /\ ninjects = 0 /\ nexp = 0 /\ nloss = 0 /\ nlink = 0
         /\ last = [op |-> "init"]
